@@ -30,7 +30,7 @@ RULE = ("a case = session (commands + replies) x events (name, form, text, posit
         "x between-chunk listener operations x segmentation; distinct = hash of all of it; non-trivial = at least one event "
         "completed while at least one listener was registered for some name and the call log was compared")
 ASSUMPTIONS = [
-    "whether a listener removed by ANOTHER listener during a delivery still receives that event is unspecified: either accepted",
+    "a listener unsubscribed by ANOTHER listener during a delivery was registered when the event arrived, so it still receives that event (exactly once) and none afterwards",
     "a listener added during the delivery of an event was not registered when that event arrived, so it must not receive it ('and to nobody else'); it must receive later ones",
     "payload = text after the event name, further lines joined by newline; a trailing '\\nOK' on multi-line/data forms and the absence of the separator after a bare event name are tolerated",
     "order among the listeners of one event is not specified; order across events is arrival order",
@@ -290,9 +290,12 @@ class Harness(ctl.Session):
             per.setdefault(lid, []).append((jj, payload))
         for lid in sn["expected"]:
             got = per.pop(lid, [])
-            if lid in sn["removed_by_other"]:
-                if len(got) > 1:
-                    self.problems.append(("listener-called-twice", icls, {"event": j, "listener": lid}))
+            if lid in sn["removed_by_other"] and len(got) == 0:
+                # it WAS registered when the event arrived ("to every listener registered for that
+                # event name at that moment"): being unsubscribed by another listener during the
+                # same delivery must not make it miss this event
+                self.problems.append(("listener-removed-by-another-missed-that-event", icls,
+                                      {"event": j, "listener": lid, "listeners_registered": sn["expected"]}))
                 continue
             if len(got) != 1:
                 self.problems.append(("listener-missed-event" if not got else "listener-called-twice", icls,
